@@ -1203,11 +1203,11 @@ func (db *DB) FlushAndCommit(o Object) (last error) {
 	db.Lock()
 	defer db.Unlock()
 
-	if err := db.commit(o); err != nil {
+	if err := db.flush(o); err != nil {
 		last = err
 	}
 
-	if err := db.flush(o); err != nil {
+	if err := db.commit(o); err != nil {
 		last = err
 	}
 
